@@ -142,7 +142,10 @@ let spec (t : string list) : string =
     s_read (1 lsl (i m)) d' None bs
   | "R" :: n :: b :: [v] ->
     ok (int_of_n (bits_to_N (Stdlib.List.rev (n_to_bits (nat_of_int (i n)) (nn (i b))))) = i v) "not the bit reversal"
-  | ("D" | "O") :: _ -> "OK"
+  | "O" :: c :: c' :: [_] ->
+    let c = il c and c' = il c' in
+    ok (len c = len c' && Stdlib.List.for_all2 (fun x y -> x = 0 || y <> 0) c c') "a symbol that occurs lost its count"
+  | "D" :: _ -> "OK"
   | _ -> "FAIL malformed answer (panic or wrong arity)"
 
 let hash_str h s = let h = ref h in Stdlib.String.iter (fun c -> h := hmix !h (Char.code c)) s; hmix !h 10
